@@ -15,8 +15,9 @@ chunks, their sizes or the slots.
   it never panics or diverges on any input (`binary_search_total`);
 * `read_from_point_eq` — the whole `Point::Specific` path equals a loop-free list specification;
   from it: `from_existing_point` (suffix starting at that block), `from_fuzzy_slot` (suffix from the
-  first block at or after the slot, for slots not before the first block), `absent_exact_fails`,
-  `tip_is_last`.
+  first block at or after the slot, for slots not before the first block), `absent_exact_fails` (every
+  (slot, hash) pair that is not exactly some block's: `right_hash_wrong_slot_fails`,
+  `right_slot_wrong_hash_fails` spell out the two one-coordinate misses), `tip_is_last`.
 
 `read_from_point_total`, `getTip_ne_panic` — on *arbitrary* chunk contents (blocks in any order,
 read errors, undecodable bytes, empty chunks: what C43's corrupted files produce) the directory
@@ -449,6 +450,35 @@ theorem getTip_ne_panic (all : List (Chunk H)) : getTip all ≠ .panic := by
   · simp
   · split <;> simp
 
+/-- the two ways of missing a block by one coordinate, spelled out: a real block's hash at a slot that
+    is not its own (in a gap just below it, above it, anywhere), and a real block's slot with
+    another hash — both are absent points, whatever else the chain holds -/
+theorem right_hash_wrong_slot_fails (all : List (Chunk H)) (db : List (List (Block H))) (h : Intact all db)
+    (b : Block H) (hb : b ∈ db.flatten) (slot : Nat) (hne : slot ≠ b.slot)
+    (huniq : ∀ b' ∈ db.flatten, b'.hash = b.hash → b' = b) :
+    readBlocksFromPoint all slot (some b.hash) = .err .cannotFind := by
+  apply absent_exact_fails all db h
+  intro b' hb' ⟨hs, hh⟩
+  have := huniq b' hb' hh
+  subst this
+  exact hne hs.symm
+
+theorem right_slot_wrong_hash_fails (all : List (Chunk H)) (db : List (List (Block H))) (h : Intact all db)
+    (b : Block H) (hb : b ∈ db.flatten) (hash : H) (hne : hash ≠ b.hash) :
+    readBlocksFromPoint all b.slot (some hash) = .err .cannotFind := by
+  apply absent_exact_fails all db h
+  intro b' hb' ⟨hs, hh⟩
+  -- slots are strictly increasing along the chain, so `b'` is `b`
+  have hsorted := h.sorted
+  unfold Sorted at hsorted
+  rcases List.mem_iff_getElem.mp hb with ⟨i, hi, rfl⟩
+  rcases List.mem_iff_getElem.mp hb' with ⟨j, hj, rfl⟩
+  rw [List.pairwise_iff_getElem] at hsorted
+  rcases Nat.lt_trichotomy i j with hij | hij | hij
+  · have := hsorted i j hi hj hij; omega
+  · subst hij; exact hne hh.symm
+  · have := hsorted j i hj hi hij; omega
+
 /-! ## the `Origin` arm -/
 
 /-- Reading from `Point::Origin` yields the whole chain when its first block is the genesis block,
@@ -500,6 +530,10 @@ example : readBlocksFromPoint witnessAll 13 none = .ok [.blk ⟨20, 3⟩] := by 
 example : readBlocksFromPoint witnessAll 25 none = .ok [] := by decide
 example : readBlocksFromPoint witnessAll 25 (some 3) = .err .cannotFind := by decide
 example : readBlocksFromPoint witnessAll 12 (some 9) = .err .cannotFind := by decide
+-- a real block's hash at the empty slot just below it (gap 10 | 12), and in the gap before the next chunk
+example : readBlocksFromPoint witnessAll 11 (some 2) = .err .cannotFind := by decide
+example : readBlocksFromPoint witnessAll 19 (some 3) = .err .cannotFind := by decide
+example : readBlocksFromPoint witnessAll 13 (some 2) = .err .cannotFind := by decide
 example : getTip witnessAll = .ok (some ⟨20, 3⟩) := by decide
 example : chunkBinarySearch [7, 4, 1] (fun c => .ok (cmpNat c 5)) = .ok (some 1) := by decide
 example : chunkBinarySearch [7, 4, 1] (fun c => .ok (cmpNat c 0)) = .ok none := by decide
